@@ -17,8 +17,13 @@ Lemma clone_ok :
   /\ existsb (String.eqb "Clauses") clone_fresh_maps = true.
 Proof. vm_compute. repeat split; reflexivity. Qed.
 
-Lemma self_appends_ok : self_appends = tree_self_appends.
-Proof. vm_compute. reflexivity. Qed.
+(* chain methods (incl. one level of unexported helper methods) append in place only onto statement
+   slices the model appends onto, and every in-place append onto a slice that Statement.clone shares
+   (Selects) comes after a fresh slice was assigned to that field of the instance *)
+Lemma self_appends_ok :
+  forallb (fun x => existsb (String.eqb x) tree_self_appends) self_appends = true
+  /\ unreset_appends = [].
+Proof. vm_compute. split; reflexivity. Qed.
 
 (* Where.Build swaps a leading single Or on a private copy (the model's h_swap allocates) *)
 Lemma where_swap_ok : where_build_swap = MCopy.
